@@ -194,7 +194,7 @@ def c16_r3(ctx):
               GS + "constants::STANDARD_SCALARS", f"STANDARD_SCALARS is {sc}", "", okmsg="standard scalars refer to graphql-core's own objects")
 
 
-@rule("C16.R4", "references between types inside the type map are lazy (under a lambda)", min_instances=4)
+@rule("C16.R4", "references between types inside the type map are lazy (under a lambda)", min_instances=10)
 def c16_r4(ctx):
     repo = ctx.repo
     sh = Shaper(repo, inline_all=True, max_depth=6)
@@ -207,6 +207,9 @@ def c16_r4(ctx):
                 if x.kind == "Subscript" and isinstance(x.get("value"), Node) and x.get("value").kind == "Name" and chain(x.get("value").get("id")) == "$type_map_name":
                     if not under_lambda:
                         bad.append(repr(x)[:80])
+                elif x.kind == "Subscript" and isinstance(x.get("value"), Node) and x.get("value").kind == "Name" and isinstance(x.get("value").get("id"), Lit) \
+                        and x.get("value").get("id").value not in ("List",) and isinstance(x.get("slice"), Node) and x.get("slice").kind == "Constant":
+                    fixed.append(x.get("value").get("id").value)
                 ul = under_lambda or x.kind == "Lambda"
                 for c in x.children():
                     walk(c, ul, bad)
@@ -214,7 +217,10 @@ def c16_r4(ctx):
                 for c in x.children():
                     walk(c, under_lambda, bad)
         bad: List[str] = []
+        fixed: List[str] = []
         walk(v, False, bad)
+        ctx.check(not fixed, key(fi, "type map name"), f"{ctor}: the type map is referenced through the fixed name(s) {sorted(set(fixed))} instead of the configured type-map variable name: NameError when type_map_variable_name is not the default", fi.loc(),
+                  okmsg=f"{ctor}: type map referenced by its configured name only")
         refs = sum(1 for n in nodes(v, "Subscript") if isinstance(n.get("value"), Node) and n.get("value").kind == "Name" and chain(n.get("value").get("id")) == "$type_map_name")
         ctx.check(not bad, key(fi, "lazy references"), f"{ctor}: the type map is indexed eagerly while it is being built ({bad[:2]}): NameError/KeyError when the module is imported", fi.loc(),
                   okmsg=f"{ctor}: {refs} type-map reference(s), all under a lambda")
